@@ -1034,6 +1034,9 @@ def _d_get(it, recv, args, kwargs, node):
     default = args[1] if len(args) > 1 else kwargs.get("default")
     if isinstance(key, (VSet, CharSet)):
         return join_values([recv.get(e, default) if not isinstance(e, CharSet) else default for e in elements(key)])
+    if isinstance(key, SStr) and recv and all(isinstance(k, str) for k in recv) and hasattr(it.theory, "feasible_keys"):
+        # the text under validation (or a slice of it) as key: fork over the table's keys and the miss, as for table[key]
+        return ops.materialise(it, ops.it_symbolic_key(it, recv, key, node, default=default), node)
     if isinstance(key, (SStr, Sym)):
         return Sym("dictget", ops.freeze(recv) if len(recv) < 50 else ("bigdict", id(recv)), key, ops.freeze(default))
     if is_abstract(key):
@@ -1409,6 +1412,34 @@ def _pycountry_get(it, args, kwargs, node):
     return Sym("pycountry", ops.freeze(ops.strval(key)))
 
 
+def _unicodedata_normalize(it, args, kwargs, node):
+    """unicodedata.normalize(form, s): computed on concrete text; on symbolic / abstract text an opaque rewriting of it (NFKC / NFKD
+    change characters, so the result is *not* the argument)."""
+    from . import ops
+    import unicodedata
+    if len(args) != 2 or kwargs:
+        raise _CE("unicodedata.normalize arguments")
+    form, s = args[0], ops.strval(args[1])
+    if isinstance(form, str) and isinstance(s, str):
+        try:
+            return unicodedata.normalize(form, s)
+        except ValueError as e:
+            it.may_raise("ValueError", node, str(e), certain=True)
+    if isinstance(s, (SStr, Sym)):
+        return Sym("call", "unicodedata.normalize", (ops.freeze(form), ops.freeze(s)))
+    raise _CE("unicodedata.normalize of an abstract string")
+
+
+def _pycountry_other(db):
+    """A lookup in another pycountry database (historic_countries, subdivisions, ...): an opaque value of its own kind - a
+    condition on it is not the ISO 3166-1 lookup the properties speak of."""
+    def f(it, args, kwargs, node):
+        from . import ops
+        key = kwargs.get("alpha_2", args[0] if args else (next(iter(kwargs.values())) if kwargs else None))
+        return Sym("pycountry_db", db, ops.freeze(ops.strval(key)))
+    return f
+
+
 def _deepcopy(it, args, kwargs, node):
     """copy.deepcopy: immutables are shared, containers rebuilt, package objects through their own __deepcopy__."""
     x = args[0]
@@ -1518,7 +1549,10 @@ _EXT = {
     "re.search": _mk_module_match("search"), "re.sub": _re_sub,
     "itertools.cycle": _cycle, "itertools.chain": _chain, "itertools.chain.from_iterable": _chain_from_iterable,
     "operator.itemgetter": _itemgetter, "typing.cast": _cast, "warnings.warn": _warn,
+    "unicodedata.normalize": _unicodedata_normalize,
     "pycountry.countries.get": _pycountry_get, "collections.defaultdict": _defaultdict,
+    "pycountry.historic_countries.get": _pycountry_other("historic_countries"), "pycountry.countries.lookup": _pycountry_other("countries.lookup"),
+    "pycountry.historic_countries.lookup": _pycountry_other("historic_countries.lookup"),
     "copy.deepcopy": _deepcopy, "copy.copy": _copy,
     "builtins.str.maketrans": lambda it, a, k, n: _s_maketrans(it, None, a, k, n),
     "builtins.dict.fromkeys": _dict_fromkeys,
